@@ -21,6 +21,16 @@ EXTERNAL = {'time.time': 'int'}
 TRACE = bool(os.environ.get('PV_TRACE'))
 
 
+_COMPILED = {}
+
+
+def _compiled(pat):
+    import re as _re
+    if pat not in _COMPILED:
+        _COMPILED[pat] = _re.compile(pat)       # one object per pattern text: matches of it are one function of (text, position)
+    return _COMPILED[pat]
+
+
 class ClassSet:
     """One of a finite set of classes (which one is not tracked)."""
 
@@ -180,9 +190,13 @@ class Verifier(Engine):
             if inspect.isclass(o):
                 return self.construct(st, o, args, kwargs)
             import re as _re
+            import ast as _ast
+            if o is _ast.literal_eval and len(args) == 1 and isinstance(args[0], VStr) and args[0].lit() is not None:
+                return from_py(_ast.literal_eval(args[0].lit()))           # a literal of a literal: evaluated here
             if o is _re.match and len(args) >= 2 and isinstance(args[0], VStr) and args[0].lit() is not None:
                 # re.match(<literal pattern>, s): the match model of that pattern, compiled here
-                return self.re_match(st, VPy(_re.compile(args[0].lit())), args[1:])
+                pl = args[0].lit()
+                return self.re_match(st, VPy(_compiled(pl.encode('latin-1') if args[0].b else pl)), args[1:])
             ext = '%s.%s' % (getattr(o, '__module__', ''), getattr(o, '__name__', ''))
             if inspect.ismethod(o):
                 ext = '%s.%s' % (type(o.__self__).__module__, o.__qualname__)
@@ -220,6 +234,18 @@ class Verifier(Engine):
             raise OutOfSubset('len of %s' % kind_of(a))
         if name == 'isinstance':
             return VBool(self.isinstance_(st, args[0], args[1]))
+        if name == 'str' and len(args) == 3 and isinstance(args[0], VStr) and args[0].b \
+                and isinstance(args[1], VStr) and isinstance(args[2], VStr):
+            # str(bytes, encoding, errors): the codec machinery is external -- decode() is uninterpreted; it raises
+            # LookupError for an unknown codec name and UnicodeDecodeError for undecodable input under errors='strict'
+            b_, enc, err = args
+            known = z3.Function('$known_codec', S, B)(enc.t)
+            st.pc.append(z3.Function('$known_codec', S, B)(z3.StringVal('utf-8')))
+            st.pc.append(z3.Function('$known_codec', S, B)(z3.StringVal('ascii')))
+            st.may_raise(z3.Not(known), 'LookupError', 'unknown encoding')
+            st.may_raise(z3.And(known, err.t == z3.StringVal('strict'),
+                                z3.Not(z3.Function('$decodable', S, S, B)(b_.t, enc.t))), 'UnicodeDecodeError', 'undecodable bytes')
+            return VStr(z3.Function('$decode', S, S, S, S)(b_.t, enc.t, err.t))
         if name == 'int':
             a = args[0]
             if isinstance(a, VBool):
@@ -295,7 +321,9 @@ class Verifier(Engine):
         if isinstance(c, tuple):
             return z3.Or([self.isinstance_(st, v, VPy(x)) for x in c])
         if c is str:
-            return z3.BoolVal(isinstance(v, VStr))
+            return z3.BoolVal(isinstance(v, VStr) and not v.b)
+        if c is bytes:
+            return z3.BoolVal(isinstance(v, VStr) and v.b)
         if c is int:
             return z3.BoolVal(isinstance(v, (VInt, VBool)))
         if c is tuple:
